@@ -32,7 +32,8 @@ def match(pid, sub, kind, case, detail=''):
         es = e.get('sub')
         if es is not None and (sub not in es if isinstance(es, list) else es != sub):
             continue
-        if e.get('kind') not in (None, kind):
+        ek = e.get('kind')
+        if ek is not None and (kind not in ek if isinstance(ek, list) else ek != kind):
             continue
         pred = getattr(known_preds, e['pred'])
         try:
